@@ -112,6 +112,12 @@ def revolute_case(j, e, alen, rng, sigma=1.0):
             if Tb is not None:
                 check(j, float(np.max(np.abs(np.asarray(Tb, dtype=float) - T))) <= FIX * sc, site, feat, "differs-from-Twist3.exp",
                       dict(detail, theta2=t2), (site, feat))
+        # the inverse (negated) unit twist is a unit twist too: in the two-argument forms it generates the inverse motion
+        for site, fn in (("base.trexp(-S,theta)", lambda: b.trexp(S.inv().S, t2)), ("base.trexp(-se3,theta)", lambda: b.trexp(S.inv().se3(), t2))):
+            Tb = guard(j, site, feat, detail, (site, feat), fn)
+            if Tb is not None:
+                check(j, float(np.max(np.abs(np.asarray(Tb, dtype=float) @ T - np.eye(4)))) <= FIX * sc * 10, site, feat,
+                      "not-the-inverse-motion", dict(detail, theta2=t2), (site, feat))
         # and it rotates by t2 about u: R u = u, trace = 1 + 2 cos
         R = T[:3, :3]
         ok = float(np.max(np.abs(R @ u - u))) <= TOL and abs(float(np.trace(R)) - (1 + 2 * math.cos(t2))) <= TOL
@@ -283,6 +289,11 @@ def planar_case(j, e, rng, sigma=1.0):
                 if Tb is not None:
                     check(j, float(np.max(np.abs(np.asarray(Tb, dtype=float) - T))) <= FIX * sc, site, feat, "differs-from-Twist2.exp",
                           dict(detail, theta2=t2), (site,))
+            for site, fn in (("base.trexp2(-S,theta)", lambda: b.trexp2(S.inv().S, t2)), ("base.trexp2(-se2,theta)", lambda: b.trexp2(S.inv().se2(), t2))):
+                Tb = guard(j, site, feat, detail, (site,), fn)
+                if Tb is not None:
+                    check(j, float(np.max(np.abs(np.asarray(Tb, dtype=float) @ T - np.eye(3)))) <= FIX * sc * 10, site, feat,
+                          "not-the-inverse-motion", dict(detail, theta2=t2), (site,))
             ok = abs(T[0, 0] - math.cos(t2)) <= TOL and abs(T[1, 0] - math.sin(t2)) <= TOL
             check(j, ok, "Twist2.exp(theta)", feat, "wrong-rotation-angle", dict(detail, theta2=t2), ("rotation2",))
             if abs(t2) <= math.pi:
